@@ -82,9 +82,13 @@ theorem matchElem_flatten_clean (d : Dev) (rx : RxEngine) (t : Tm) (hwf : t.wf =
   have hp := prod_rflat elem root t hwf
   rw [hr, matchResolved_any_of_ok d rx _ (rflat_ne_nil elem root t hwf), hp, List.any_map]
   · congr 1
-    apply List.any_congr rfl
-    intro c hc
-    exact (stackTrue_flattenS_clean d rx c (hclean c hc)).2
+    rw [Bool.eq_iff_iff]
+    simp only [List.any_eq_true, Function.comp]
+    constructor
+    · rintro ⟨c, hc, ht⟩
+      exact ⟨c, hc, by rw [← (stackTrue_flattenS_clean d rx c (hclean c hc)).2]; exact ht⟩
+    · rintro ⟨c, hc, ht⟩
+      exact ⟨c, hc, by rw [(stackTrue_flattenS_clean d rx c (hclean c hc)).2]; exact ht⟩
   · intro x hx
     rw [hp, List.mem_map] at hx
     obtain ⟨c, hc, rfl⟩ := hx
